@@ -39,7 +39,7 @@ fn obs_equal(a: &RunOut, b: &RunOut) -> bool {
 fn check_budget(p: &CaoCompiledProgram, n: u64, t: Option<u64>, unbounded: Option<&RunOut>, ctx: &mut CaseCtx) -> Option<(Json, String)> {
     let out = run_budget(p, n, Some(n));
     ctx.evaluation();
-    ctx.count("dispatches", out.counters.dispatches.min(n + 1));
+    ctx.count("dispatches", out.counters.dispatches.min(n.saturating_add(1)));
     if out.aborted {
         let d = out.counters.timeout_depth;
         ctx.count("overruns_seen", 1);
@@ -112,7 +112,8 @@ fn budgets_for(t: Option<u64>, cap: u64, rng: &mut crate::kernel::Rng) -> Vec<u6
                     s.insert(1 + rng.below(t + 2));
                 }
             }
-            for n in [t.saturating_sub(1).max(1), t.max(1), t + 1, 2 * t + 1, 10 * t + 1] {
+            // ... and "no limit" spelled as the largest budget there is
+            for n in [t.saturating_sub(1).max(1), t.max(1), t + 1, 2 * t + 1, 10 * t + 1, u64::MAX - 1, u64::MAX] {
                 s.insert(n);
             }
         }
